@@ -219,6 +219,10 @@ def types_loop(n, isrow, var="i"):
                 [var, "ARR(%s)" % gp], "%s - %s" % (dim, var))
 
 
+# text of the classification of the NEW RATIONAL bounds in the both-sides real modifiers
+QCLASS = {True: "_rangeTypeRational(_rationalLP->lhs(i), _rationalLP->rhs(i))", False: "_rangeTypeRational(_rationalLP->lower(i), _rationalLP->upper(i))"}
+QCLASS_SWAPPED = {True: "_rangeTypeRational(_rationalLP->rhs(i), _rationalLP->lhs(i))", False: "_rangeTypeRational(_rationalLP->upper(i), _rationalLP->lower(i))"}
+
 for fn, code, isrow, low, arg in [("changeRangeReal", "M_changeRange_i", True, None, ("lhs", "rhs")),
                                   ("changeBoundsReal", "M_changeBounds_i", False, None, ("lower", "upper"))]:
     d = {"CODE": code}
@@ -226,15 +230,17 @@ for fn, code, isrow, low, arg in [("changeRangeReal", "M_changeRange_i", True, N
         d["ISROW"] = ""
     nm = "pub_" + fn + "_i"
     typ = "_rowTypes" if isrow else "_colTypes"
-    for variant, extra, finding in (("", {}, False), ("_anyinfty", {"ANY_INFTY": ""}, True)):
-        dd = dict(d)
-        dd.update(extra)
-        inst(nm + variant, "SoPlexBase<R>::%s(int i, const R& %s, const R& %s)%s" % (fn, arg[0], arg[1], " [any INFTY]" if finding else ""),
+    # (the instance names keep the suffix under which defect B was found and is recorded in known_findings.json)
+    for variant in ("_anyinfty",):
+        inst(nm + variant, "SoPlexBase<R>::%s(int i, const R& %s, const R& %s)  [any INFTY in [1e10, 1e100]]" % (fn, arg[0], arg[1]),
              "void " + P + "%s(int i, const R& %s, const R& %s)" % (fn, arg[0], arg[1]), "pub_side2",
-             "int i = a_i; const R& %s = a_r1; const R& %s = a_r2;" % arg, dd,
-             must=[r"_invalidateSolution\(\)", typ + r"\[i\] = _rangeTypeReal"], finding=finding,
+             "int i = a_i; const R& %s = a_r1; const R& %s = a_r2;" % arg, dict(d),
+             must=[r"_invalidateSolution\(\)", typ + r"\[i\] = _rangeTypeRational"],
              mutants=[mut("no_sync", nm + variant, *SYNC_MUT),
-                      mut("swap_args", nm + variant, "_rangeTypeReal(%s, %s)" % arg, "_rangeTypeReal(%s, %s)" % (arg[1], arg[0]))])
+                      mut("swap_args", nm + variant, QCLASS[isrow], QCLASS_SWAPPED[isrow]),
+                      mut("wrong_index", nm + variant, typ + "[i] =", typ + "[0] ="),
+                      # defect B re-introduced (reverse of 8abbce4): classification against the real threshold 1e100
+                      mut("defect_B_real_threshold", nm + variant, QCLASS[isrow], "_rangeTypeReal(%s, %s)" % arg)])
 
 for fn, code, isrow, low, arg in [("changeLhsReal", "M_changeLhs_v", True, True, "lhs"),
                                   ("changeRhsReal", "M_changeRhs_v", True, False, "rhs"),
@@ -263,15 +269,15 @@ for fn, code, isrow, arg in [("changeRangeReal", "M_changeRange_v", True, ("lhs"
         d["ISROW"] = ""
     nm = "pub_" + fn + "_v"
     typ = "_rowTypes" if isrow else "_colTypes"
-    for variant, extra, finding in (("", {}, False), ("_anyinfty", {"ANY_INFTY": ""}, True)):
-        dd = dict(d)
-        dd.update(extra)
-        inst(nm + variant, "SoPlexBase<R>::%s(const VectorBase<R>& %s, const VectorBase<R>& %s)%s" % (fn, arg[0], arg[1], " [any INFTY]" if finding else ""),
+    for variant in ("_anyinfty",):
+        inst(nm + variant, "SoPlexBase<R>::%s(const VectorBase<R>& %s, const VectorBase<R>& %s)  [any INFTY in [1e10, 1e100]]" % (fn, arg[0], arg[1]),
              "void " + P + "%s(const VectorBase<R>& %s, const VectorBase<R>& %s)" % (fn, arg[0], arg[1]), "pub_vec2",
-             "const VectorBase<R>& %s = *a_vr1; const VectorBase<R>& %s = *a_vr2;" % arg, dd,
-             must=[typ + r"\[i\] = _rangeTypeReal"], loops=[types_loop(0, isrow)], finding=finding,
+             "const VectorBase<R>& %s = *a_vr1; const VectorBase<R>& %s = *a_vr2;" % arg, dict(d),
+             must=[typ + r"\[i\] = _rangeTypeRational"], loops=[types_loop(0, isrow)],
              mutants=[mut("no_sync", nm + variant, *SYNC_MUT),
-                      mut("swap_args", nm + variant, "_rangeTypeReal(%s[i], %s[i])" % arg, "_rangeTypeReal(%s[i], %s[i])" % (arg[1], arg[0]))])
+                      mut("swap_args", nm + variant, QCLASS[isrow], QCLASS_SWAPPED[isrow]),
+                      mut("off_by_one", nm + variant, "int i = 0;", "int i = 1;"),
+                      mut("defect_B_real_threshold", nm + variant, QCLASS[isrow], "_rangeTypeReal(%s[i], %s[i])" % arg)])
 
 inst("pub_changeObjReal_i", "SoPlexBase<R>::changeObjReal(int i, const R& obj)", "void " + P + "changeObjReal(int i, const R& obj)", "pub_obj",
      "int i = a_i; const R& obj = a_r1;", {"CODE": "M_changeObj_i"},
@@ -297,15 +303,18 @@ for fn, isrow, code, ptype, pname, slot in [("changeRowReal", True, "M_changeRow
                                             ("changeColReal", False, "M_changeCol", "LPColReal", "lpcol", "a_colr")]:
     nm = "pub_" + fn
     typ = "_rowTypes" if isrow else "_colTypes"
-    for variant, extra, finding in (("", {}, False), ("_anyinfty", {"ANY_INFTY": ""}, True)):
+    for variant in ("_anyinfty",):
         dd = {"CODE": code}
         if isrow:
             dd["ISROW"] = ""
-        dd.update(extra)
-        inst(nm + variant, "SoPlexBase<R>::%s(int i, const %s& %s)%s" % (fn, ptype, pname, " [any INFTY]" if finding else ""),
+        realargs = "lprow.lhs(), lprow.rhs()" if isrow else "lpcol.lower(), lpcol.upper()"
+        inst(nm + variant, "SoPlexBase<R>::%s(int i, const %s& %s)  [any INFTY in [1e10, 1e100]]" % (fn, ptype, pname),
              "void " + P + "%s(int i, const %s& %s)" % (fn, ptype, pname), "pub_chg",
-             "int i = a_i; const %s& %s = *%s;" % (ptype, pname, slot), dd, finding=finding,
-             mutants=[mut("no_sync", nm + variant, *SYNC_MUT), mut("wrong_index", nm + variant, typ + "[i] =", typ + "[0] =")])
+             "int i = a_i; const %s& %s = *%s;" % (ptype, pname, slot), dd,
+             must=[typ + r"\[i\] = _rangeTypeRational"],
+             mutants=[mut("no_sync", nm + variant, *SYNC_MUT), mut("wrong_index", nm + variant, typ + "[i] =", typ + "[0] ="),
+                      mut("swap_args", nm + variant, QCLASS[isrow], QCLASS_SWAPPED[isrow]),
+                      mut("defect_B_real_threshold", nm + variant, QCLASS[isrow], "_rangeTypeReal(%s)" % realargs)])
 
 for fn, isrow, code in [("removeRowReal", True, "M_removeRow"), ("removeColReal", False, "M_removeCol")]:
     nm = "pub_" + fn
@@ -383,11 +392,12 @@ for fn, code, isrow, low, arg in [("_changeLhsReal", "M_changeLhs", True, True, 
     on = "ON_LOWER" if low else "ON_UPPER"
     other = "ON_UPPER" if low else "ON_LOWER"
     nm = "int" + fn + "_i"
+    # *_fixedclause: OPEN known finding G (known_findings.json): fails on the current tree; registered in C06 only
     for variant, extra, finding in (("", {}, False), ("_fixedclause", {"CLAUSE_FIXED": ""}, True)):
         dd = dict(d, CODE=code + "_i")
         dd.update(extra)
-        inst(nm + variant, "SoPlexBase<R>::%s(int i, const R& %s)%s" % (fn, arg, " [+ clause: FIXED only with equal bounds]" if finding else ""),
-             "void " + P + "%s(int i, const R& %s)" % (fn, arg), "int_side1", "int i = a_i; const R& %s = a_r1;" % arg, dd, props=IP, finding=finding,
+        inst(nm + variant, "SoPlexBase<R>::%s(int i, const R& %s)%s" % (fn, arg, "  [+ clause: FIXED only with equal bounds; OPEN known finding]" if finding else ""),
+             "void " + P + "%s(int i, const R& %s)" % (fn, arg), "int_side1", "int i = a_i; const R& %s = a_r1;" % arg, dd, props=("C06",) if finding else IP, finding=finding,
              must=[r"_rationalLUSolver\.clear\(\)"],
              mutants=[mut("no_lu_clear", nm + variant, *LU_MUT),
                       mut("keep_status", nm + variant, "== SPxSolverBase<R>::%s" % on, "== SPxSolverBase<R>::BASIC"),
@@ -430,12 +440,13 @@ inst("int_addColReal", "SoPlexBase<R>::_addColReal(const LPColReal& lpcol)", "vo
      mutants=[mut("no_lu_clear", "int_addColReal", *LU_MUT), mut("wrong_test", "int_addColReal", "lpcol.lower() > -realParam", "lpcol.lower() < -realParam")])
 inst("int_addColReal4", "SoPlexBase<R>::_addColReal(R obj, R lower, const SVectorBase<R>& lpcol, R upper)",
      "void " + P + "_addColReal(R obj, R lower, const SVectorBase<R>& lpcol, R upper)", "int_add",
-     "R obj = a_r3; R lower = a_r1; const SVectorBase<R>& lpcol = *a_svr; R upper = a_r2;", {"ADD_COL4": "", "CODE": "M_addCol4"}, props=IP, finding=True,
-     mutants=[mut("no_lu_clear", "int_addColReal4", *LU_MUT)])
-inst("int_addColReal4_nokept", "SoPlexBase<R>::_addColReal(R obj, R lower, const SVectorBase<R>& lpcol, R upper)  [restricted: no basis kept outside the solver]",
-     "void " + P + "_addColReal(R obj, R lower, const SVectorBase<R>& lpcol, R upper)", "int_add",
-     "R obj = a_r3; R lower = a_r1; const SVectorBase<R>& lpcol = *a_svr; R upper = a_r2;", {"ADD_COL4": "", "CODE": "M_addCol4", "NOKEPT": ""}, props=IP,
-     mutants=[mut("no_lu_clear", "int_addColReal4_nokept", *LU_MUT), mut("swap_bounds", "int_addColReal4_nokept", "addCol(obj, lower, lpcol, upper, scale)", "addCol(obj, upper, lpcol, lower, scale)")])
+     "R obj = a_r3; R lower = a_r1; const SVectorBase<R>& lpcol = *a_svr; R upper = a_r2;", {"ADD_COL4": "", "CODE": "M_addCol4"}, props=IP,
+     mutants=[mut("no_lu_clear", "int_addColReal4", *LU_MUT),
+              mut("swap_bounds", "int_addColReal4", "addCol(obj, lower, lpcol, upper, scale)", "addCol(obj, upper, lpcol, lower, scale)"),
+              mut("wrong_test", "int_addColReal4", "lower > -realParam", "lower < -realParam"),
+              # defect F re-introduced (reverse of 451259c): a row status BASIC is appended for the new column
+              mut("defect_F_row_status", "int_addColReal4", r"else if\(_hasBasis\)\s*\{.*?ZERO\);\s*\}",
+                  "else if(_hasBasis) _basisStatusRows.append(SPxSolverBase<R>::BASIC);", regex=True)])
 inst("int_addColsReal", "SoPlexBase<R>::_addColsReal(const LPColSetReal& lpcolset)", "void " + P + "_addColsReal(const LPColSetReal& lpcolset)", "int_add",
      "const LPColSetReal& lpcolset = *a_csetr;", {"ADD_COLS": "", "CODE": "M_addCols"}, props=IP,
      loops=[loop(0, ["i"], ["0 <= i && i <= g_n", "*gp_bsc_size == g_nbc + i",
@@ -453,11 +464,12 @@ inst("int_changeColReal", "SoPlexBase<R>::_changeColReal(int i, const LPColReal&
      mutants=[mut("no_lu_clear", "int_changeColReal", *LU_MUT), mut("keep_basis", "int_changeColReal", "_hasBasis = false;", ";"),
               mut("wrong_status", "int_changeColReal", "SPxSolverBase<R>::ON_UPPER : SPxSolverBase<R>::ZERO", "SPxSolverBase<R>::ON_LOWER : SPxSolverBase<R>::ZERO")])
 inst("int_changeElementReal", "SoPlexBase<R>::_changeElementReal(int i, int j, const R& val)", "void " + P + "_changeElementReal(int i, int j, const R& val)", "int_elem",
-     "int i = a_i; int j = a_j; const R& val = a_r1;", {}, props=IP, finding=True, mutants=[mut("no_lu_clear", "int_changeElementReal", *LU_MUT)])
-inst("int_changeElementReal_nokept", "SoPlexBase<R>::_changeElementReal(int i, int j, const R& val)  [restricted: no basis kept outside the solver]",
-     "void " + P + "_changeElementReal(int i, int j, const R& val)", "int_elem",
-     "int i = a_i; int j = a_j; const R& val = a_r1;", {"NOKEPT": ""}, props=IP,
-     mutants=[mut("no_lu_clear", "int_changeElementReal_nokept", *LU_MUT), mut("swap_ij", "int_changeElementReal_nokept", "changeElement(i, j, val, scale)", "changeElement(j, i, val, scale)")])
+     "int i = a_i; int j = a_j; const R& val = a_r1;", {}, props=IP,
+     mutants=[mut("no_lu_clear", "int_changeElementReal", *LU_MUT),
+              mut("swap_ij", "int_changeElementReal", "changeElement(i, j, val, scale)", "changeElement(j, i, val, scale)"),
+              mut("keep_basis", "int_changeElementReal", "_hasBasis = false;", ";"),
+              # defect E re-introduced (reverse of 75ef068): the status of column i (a row index) is examined
+              mut("defect_E_col_i", "int_changeElementReal", "_basisStatusCols[j]", "_basisStatusCols[i]")])
 
 for fn, isrow, code in [("_removeRowReal", True, "M_removeRow"), ("_removeColReal", False, "M_removeCol")]:
     nm = "int" + fn
@@ -469,12 +481,16 @@ for fn, isrow, code in [("_removeRowReal", True, "M_removeRow"), ("_removeColRea
          mutants=[mut("no_lu_clear", nm, *LU_MUT), mut("keep_basis", nm, "_hasBasis = false;", ";"), mut("no_shrink", nm, arr + ".removeLast();", ";")])
     nm = "int" + fn.replace("Row", "Rows").replace("Col", "Cols") + "_perm"
     f2 = fn.replace("Row", "Rows").replace("Col", "Cols")
+    num = "numRows()" if isrow else "numCols()"
     inst(nm, "SoPlexBase<R>::%s(int perm[])  [bounded: <= CAP rows/columns, loops unwound]" % f2, "void " + P + "%s(int perm[])" % f2, "int_rmperm",
-         "int* perm = a_perm;", dict(dd, CODE=code + "s"), props=IP, finding=True, unwind_loops=[{"function": BODY, "loop": 0}],
-         mutants=[mut("no_lu_clear", nm, *LU_MUT)])
-    inst(nm + "_nokept", "SoPlexBase<R>::%s(int perm[])  [restricted: no basis kept outside the solver; bounded: <= CAP]" % f2, "void " + P + "%s(int perm[])" % f2, "int_rmperm",
-         "int* perm = a_perm;", dict(dd, CODE=code + "s", NOKEPT=""), props=IP, unwind_loops=[{"function": BODY, "loop": 0}],
-         mutants=[mut("no_lu_clear", nm + "_nokept", *LU_MUT), mut("no_forward", nm + "_nokept", "_realLP->remove", "if(false) _realLP->remove")])
+         "int* perm = a_perm;", dict(dd, CODE=code + "s"), props=IP, unwind_loops=[{"function": BODY, "loop": 0}],
+         mutants=[mut("no_lu_clear", nm, *LU_MUT), mut("no_forward", nm, "_realLP->remove", "if(false) _realLP->remove"),
+                  mut("no_shrink", nm, arr + ".reSize(", "(void)("),
+                  mut("wrong_test", nm, "perm[i] < 0 && " + arr + "[i] %s SPxSolverBase<R>::BASIC" % ("!=" if isrow else "=="),
+                      "perm[i] < 0 && " + arr + "[i] %s SPxSolverBase<R>::BASIC" % ("==" if isrow else "!=")),
+                  # defect D re-introduced (reverse of eba3678): descending over the NEW count; and its half: ascending over the NEW count
+                  mut("defect_D_descending_newsize", nm, "for(int i = 0; i < oldsize && _hasBasis; i++)", "for(int i = %s - 1; i >= 0 && _hasBasis; i--)" % num),
+                  mut("defect_D_newsize", nm, "i < oldsize && _hasBasis", "i < %s && _hasBasis" % num)])
 
 inst("int_setBasis", "SoPlexBase<R>::setBasis(const VarStatus rows[], const VarStatus cols[])",
      "void " + P + "setBasis(const typename SPxSolverBase<R>::VarStatus rows[], const typename SPxSolverBase<R>::VarStatus cols[])", "int_basis",
@@ -553,12 +569,14 @@ for fn, code, isrow, arg in [("changeRangeRational", "M_changeRange", True, ("lh
 for suffix, sig, pro, dd in [("_i", "changeObjRational(int i, const Rational& obj)", "int i = a_i; const Rational& obj = a_q1;", {"CODE": "M_changeObj_i"}),
                              ("_i_gmp", "changeObjRational(int i, const mpq_t* obj)", "int i = a_i; const mpq_t* obj = a_m1;", {"CODE": "M_changeObj_i"}),
                              ("_v", "changeObjRational(const VectorRational& obj)", "const VectorRational& obj = *a_vq1;", {"CODE": "M_changeObj_v", "VEC": ""})]:
-    for variant, extra, finding in (("", {}, False), ("_scaleflag", {"CLAUSE_SCALE": ""}, True)):
+    # (the instance names keep the suffix under which defect C was found and is recorded in known_findings.json)
+    for variant in ("_scaleflag",):
         nm = "rat_changeObjRational" + suffix + variant
-        d2 = dict(dd)
-        d2.update(extra)
-        inst(nm, "SoPlexBase<R>::" + sig + (" [+ clause: real LP gets its scale flag]" if finding else ""), "void " + P + sig, "rat_obj", pro, d2, props=RP, finding=finding,
-             mutants=[mut("no_early_return", nm, *ONLY_MUT), mut("no_sync", nm, *SYNC_MUT), mut("no_invalidate", nm, "_invalidateSolution();", ";")])
+        inst(nm, "SoPlexBase<R>::" + sig + "  [incl. clause: the real LP gets its own scale flag]", "void " + P + sig, "rat_obj", pro, dict(dd), props=RP,
+             must=[r"_realLP->isScaled\(\)"],
+             mutants=[mut("no_early_return", nm, *ONLY_MUT), mut("no_sync", nm, *SYNC_MUT), mut("no_invalidate", nm, "_invalidateSolution();", ";"),
+                      # defect C re-introduced (reverse of 788256a): the real LP is updated without its scale flag
+                      mut("defect_C_no_scale_flag", nm, ", _realLP->isScaled());", ");")])
 
 for suffix, sig, pro in [("", "changeElementRational(int i, int j, const Rational& val)", "int i = a_i; int j = a_j; const Rational& val = a_q1;"),
                          ("_gmp", "changeElementRational(int i, int j, const mpq_t* val)", "int i = a_i; int j = a_j; const mpq_t* val = a_m1;")]:
@@ -611,12 +629,12 @@ inst("rat_addColRational_gmp", "SoPlexBase<R>::addColRational(const mpq_t* obj, 
      mutants=[mut("no_early_return", "rat_addColRational_gmp", *ONLY_MUT), mut("no_sync", "rat_addColRational_gmp", *SYNC_MUT),
               mut("swap_bounds", "rat_addColRational_gmp", "R(lowerRational(i)), DSVectorBase", "R(upperRational(i)), DSVectorBase"),
               mut("wrong_sense", "rat_addColRational_gmp", "? 1.0 : -1.0", "? -1.0 : 1.0")])
-inst("rat_clearLPRational", "SoPlexBase<R>::clearLPRational()", "void " + P + "clearLPRational()", "pub_clear", "", {"RATIONAL": ""}, props=("C07", "C06", "C11"), finding=True,
-     mutants=[mut("no_sync", "rat_clearLPRational", *SYNC_MUT)])
-inst("rat_clearLPRational_notonlyreal", "SoPlexBase<R>::clearLPRational()  [restricted: sync mode AUTO or MANUAL]", "void " + P + "clearLPRational()", "pub_clear", "",
-     {"RATIONAL": "", "NOT_ONLYREAL": ""}, props=("C07", "C06", "C11"),
-     mutants=[mut("no_sync", "rat_clearLPRational_notonlyreal", *SYNC_MUT), mut("no_lu_clear", "rat_clearLPRational_notonlyreal", "_rationalLUSolver.clear();", ";"),
-              mut("keep_types", "rat_clearLPRational_notonlyreal", "_rowTypes.clear();", ";")])
+inst("rat_clearLPRational", "SoPlexBase<R>::clearLPRational()  [all sync modes, incl. real-only]", "void " + P + "clearLPRational()", "pub_clear", "", {"RATIONAL": ""}, props=("C07", "C06", "C11"),
+     mutants=[mut("no_sync", "rat_clearLPRational", *SYNC_MUT), mut("no_lu_clear", "rat_clearLPRational", "_rationalLUSolver.clear();", ";"),
+              mut("keep_types", "rat_clearLPRational", "_rowTypes.clear();", ";"),
+              mut("early_return_invalidates", "rat_clearLPRational", *ONLY_MUT),
+              # defect A re-introduced (reverse of c2eb37f): no early return in real-only mode => null rational LP dereferenced
+              mut("defect_A_no_early_return", "rat_clearLPRational", r"if\(intParam\(SoPlexBase<R>::SYNCMODE\) == SYNCMODE_ONLYREAL\)\s*return;", ";", regex=True)])
 
 
 # ------------------------------------------------------------------------------------------------
@@ -698,19 +716,11 @@ def main():
         "defines": {"CAP": "6"},
         "flags": DEFAULT_FLAGS, "timeout_s": 240, "unwind": UNWIND, "unwind_loops": STUB_LOOPS,
         "conformance": CONFORMANCE, "constants": CONSTANTS, "extracts": EXTRACTS, "trusted": TRUSTED,
-        "instances": [e for e, _, f in T.rows if not f],
+        # finding=True marks an instance whose contract FAILS on the current tree because of an OPEN known finding
+        # (known_findings.json: bin/check prints KNOWN-FINDING and exits 0); it is registered like any other instance
+        "instances": [e for e, _, _ in T.rows],
     }
     json.dump(unit, open(os.path.join(HERE, "unit.json"), "w"), indent=1)
-    # instances whose obligations FAIL on the unchanged tree (suspected defects): kept in a unit of their own,
-    # not registered in props/ (see the final report); same sources
-    fdir = os.path.join(os.path.dirname(HERE), "lpmod_findings")
-    os.makedirs(fdir, exist_ok=True)
-    funit = dict(unit)
-    funit["desc"] = "lpmod instances that FAIL on the unchanged tree (suspected SoPlex defects); sources shared with units/lpmod"
-    funit["cpp"] = ["../lpmod/unit.cpp"]
-    funit["c"] = ["../lpmod/contract.c"]
-    funit["instances"] = [e for e, _, f in T.rows if f]
-    json.dump(funit, open(os.path.join(fdir, "unit.json"), "w"), indent=1)
     names = [e["name"] for e, _, _ in T.rows]
     assert len(names) == len(set(names)), "duplicate instance names"
     for prop in ("C06", "C07", "C11"):
@@ -718,10 +728,17 @@ def main():
         if not os.path.exists(p):
             continue
         doc = json.load(open(p))
-        sel = [e["name"] for e, props, f in T.rows if prop in props and not f]
-        doc["units"] = [u for u in doc.get("units", []) if u.get("unit") != "lpmod"] + [{"unit": "lpmod", "instances": sel}]
+        sel = [e["name"] for e, props, _ in T.rows if prop in props]
+        mine = {"unit": "lpmod", "instances": sel}
+        # entries of OTHER units (ratbasis, lpset_remove, dataset, ...) are preserved verbatim and keep their position
+        units = [u for u in doc.get("units", []) if u.get("unit") != "lpmod_findings"]
+        if any(u.get("unit") == "lpmod" for u in units):
+            units = [mine if u.get("unit") == "lpmod" else u for u in units]
+        else:
+            units.append(mine)
+        doc["units"] = units
         json.dump(doc, open(p, "w"), indent=1)
-    print("%d instances (%d findings kept out of unit.json)" % (len(unit["instances"]), sum(1 for _, _, f in T.rows if f)))
+    print("%d instances (%d of them open known findings)" % (len(unit["instances"]), sum(1 for _, _, f in T.rows if f)))
 
 
 if __name__ == "__main__":
